@@ -81,7 +81,11 @@ def run_rsa(ctx, spec):
                            if ctx.tier != 'quick' else rng.choice(
                                [2048, 2048, 2048, 3072, 4096]))
             for _ in range(size)]
-    keys = [gen.rsa_key(n) for n, _, _ in mods]
+    # field encodings with and without leading zero bytes (big-endian
+    # integers: the padding is insignificant)
+    keys = [gen.rsa_key(n, pad=rng.choice([0, 0, 1, 5])) for n, _, _ in mods]
+    ctx.count('padded_field_encodings', sum(
+        1 for k in keys if k.rsa_info.e[:1] == b'\x00'))
     ret = paranoid.CheckAllRSA(keys)
     ctx.count('healthy_batches')
     for (n, p, q), k in zip(mods, keys):
@@ -141,7 +145,8 @@ def run_ec(ctx, spec):
     if not ctx.want('batch%d' % bi):
       continue
     ds = [rng.below(n - 1) + 1 for _ in range(size)]
-    keys = [gen.ec_key(curve, *sigs.mulg(curve, d)) for d in ds]
+    keys = [gen.ec_key(curve, *sigs.mulg(curve, d), pad=rng.choice([0, 0, 2]))
+            for d in ds]
     mixed = bi % 3 == 0
     extra = []
     if mixed:
@@ -361,5 +366,6 @@ def finalize(agg, tier):
   need = ['healthy_rsa_keys', 'healthy_ec_keys', 'healthy_signatures',
           'healthy_rsa_keys_with_weak_neighbours',
           'healthy_signatures_with_weak_neighbours', 'mixed_batches',
-          'healthy_batches', 'resubmitted_healthy_artifacts']
+          'healthy_batches', 'resubmitted_healthy_artifacts',
+          'padded_field_encodings']
   return [], ['reach counter %s is zero' % k for k in need if not c.get(k)]
